@@ -18,6 +18,7 @@ mod c16;
 mod c17;
 mod c18;
 mod c19;
+mod c20;
 mod sinkwalk;
 mod walkprops;
 mod smoke;
@@ -43,6 +44,7 @@ pub fn run(opts: &Opts) -> i32 {
         "C17" => c17::run(opts),
         "C18" => c18::run(opts),
         "C19" => c19::run(opts),
+        "C20" => c20::run(opts),
         "smoke" => smoke::run(opts),
         other => {
             println!("INCONCLUSIVE: no check registered for {other}");
